@@ -136,6 +136,9 @@ Proof. revert i. induction l as [|a l IH]; intros [|i]; cbn; auto. f_equal. appl
 Lemma nth_upd_some {A} (l:list (option A)) i x y : nth i l None = Some y -> nth i (upd l i (Some x)) None = Some x.
 Proof. revert i. induction l as [|a l IH]; intros [|i] H; cbn in *; try discriminate; auto. Qed.
 
+Lemma upd_same_or_out (l:list nat) i : upd l i (nth i l 0) = l.
+Proof. revert i. induction l as [|a l IH]; intros [|i]; cbn; auto. f_equal. apply IH. Qed.
+
 (* ---- quiet trees ---- *)
 Definition slot_okP (o:option (rnode -> Prop)) (k:option rnode) : Prop :=
   match o, k with Some p, Some kn => p kn | None, None => True | _, _ => False end.
